@@ -130,6 +130,8 @@ def guarded(run_case):
         try:
             return run_case(ctx, case)
         except PoolError as e:
+            if e.kind == "start":
+                raise RuntimeError("MPI pool could not be started: %s" % e.detail)     # harness trouble, never a verdict
             tail = e.stderr_tail[-3000:]
             sig = {"kind": e.kind}
             if e.kind == "crash":
@@ -312,7 +314,11 @@ def main(modname, prop, level="exploration", variants=("asan",), default_workers
         print("note:", n[:400])
     print("%s tier=%s seed=%d evaluations=%d distinct_nontrivial=%d wall=%.1fs violations=%d" % (prop, a.tier, a.seed, evaluations, len(nt), wall, len(violations)))
     if violations:
+        seen_paths = set()
         for path, probs in violations:
+            if path in seen_paths:
+                continue
+            seen_paths.add(path)
             for p in probs[:3]:
                 print("  problem:", str(p.get("msg"))[:500])
             print("VIOLATION property=%s replay=%s" % (prop, path))
